@@ -278,30 +278,57 @@ func c38IndexState(p *an.Prog, r *an.R, getHash *types.Func) {
 	}
 	r.Fn(an.FuncName(mm))
 	minfo := md.Pkg.TypesInfo
-	mg := an.NewG(minfo, md.Decl.Body)
 	for _, fname := range []string{"ID", "Name", "Branches"} {
 		fld := p.Field("", "Repository", fname)
 		found := false
-		for _, b := range mg.C.Blocks {
-			cond := an.CondOf(b)
-			if cond == nil {
-				continue
-			}
-			cnt := 0
-			ast.Inspect(cond, func(m ast.Node) bool {
-				if se, ok := m.(*ast.SelectorExpr); ok && minfo.Selections[se] != nil && minfo.Selections[se].Obj() == fld {
-					cnt++
+		for _, xd := range calleeDecls(p, md) {
+			if xd != md {
+				// a helper that checks the immutable fields: MergeMutable must hand its error on
+				hf, _ := xd.Pkg.TypesInfo.Defs[xd.Decl.Name].(*types.Func)
+				propagated := false
+				ast.Inspect(md.Decl.Body, func(n ast.Node) bool {
+					is, ok := n.(*ast.IfStmt)
+					if !ok || is.Init == nil {
+						return true
+					}
+					as, ok := is.Init.(*ast.AssignStmt)
+					if !ok || len(as.Rhs) != 1 || len(an.CallsTo(minfo, as.Rhs[0], false, hf)) == 0 {
+						return true
+					}
+					errObj := minfo.ObjectOf(as.Lhs[len(as.Lhs)-1].(*ast.Ident))
+					for _, st := range is.Body.List {
+						if rs, ok := st.(*ast.ReturnStmt); ok && len(rs.Results) > 0 && isIdentOf(minfo, rs.Results[len(rs.Results)-1], errObj) {
+							propagated = true
+						}
+					}
+					return true
+				})
+				if !propagated {
+					continue
 				}
-				return true
-			})
-			if cnt < 2 {
-				continue
 			}
-			// the "differs" edge must return a non-nil error: first node of then-branch region returns errors.New
-			then := b.Succs[0]
-			for _, nd := range then.Nodes {
-				if rs, ok := nd.(*ast.ReturnStmt); ok && len(rs.Results) == 2 && !minfo.Types[rs.Results[1]].IsNil() {
-					found = true
+			mg := an.NewG(minfo, xd.Decl.Body)
+			for _, b := range mg.C.Blocks {
+				cond := an.CondOf(b)
+				if cond == nil {
+					continue
+				}
+				cnt := 0
+				ast.Inspect(cond, func(m ast.Node) bool {
+					if se, ok := m.(*ast.SelectorExpr); ok && minfo.Selections[se] != nil && minfo.Selections[se].Obj() == fld {
+						cnt++
+					}
+					return true
+				})
+				if cnt < 2 {
+					continue
+				}
+				// the "differs" edge must return a non-nil error: first node of then-branch region returns errors.New
+				then := b.Succs[0]
+				for _, nd := range then.Nodes {
+					if rs, ok := nd.(*ast.ReturnStmt); ok && len(rs.Results) >= 1 && !minfo.Types[rs.Results[len(rs.Results)-1]].IsNil() {
+						found = true
+					}
 				}
 			}
 		}
